@@ -131,12 +131,26 @@ func (vm *VM) Run(program *Program, env interface{}) (out interface{}, err error
 		case OpEqualInt:
 			b := vm.pop()
 			a := vm.pop()
-			vm.push(a.(int) == b.(int))
+			x, xok := a.(int)
+			y, yok := b.(int)
+			if xok && yok {
+				vm.push(x == y)
+			} else {
+				// A nil-safe operand (a?.b) is statically an int but may be nil.
+				vm.push(equal(a, b))
+			}
 
 		case OpEqualString:
 			b := vm.pop()
 			a := vm.pop()
-			vm.push(a.(string) == b.(string))
+			x, xok := a.(string)
+			y, yok := b.(string)
+			if xok && yok {
+				vm.push(x == y)
+			} else {
+				// A nil-safe operand (a?.b) is statically a string but may be nil.
+				vm.push(equal(a, b))
+			}
 
 		case OpJump:
 			offset := vm.arg()
